@@ -406,6 +406,11 @@ func (g *Guard) Check() string {
 	if !bytes.Equal(g.buf[:g.n], g.orig) {
 		return "the input bytes were modified"
 	}
+	return g.CheckTail()
+}
+
+// CheckTail only looks at the memory after the slice (for buffers the call is meant to fill).
+func (g *Guard) CheckTail() string {
 	for i := 0; i < guardTail; i++ {
 		if g.buf[g.n+i] != byte(0xA5^i*7) {
 			return fmt.Sprintf("the caller's memory after the input was overwritten (byte %d past the end of a %d-byte slice)", i, g.n)
